@@ -235,6 +235,16 @@ func scenC18(g *Gen, dir string) ([]*Op, func(e *Env, i int, op *Op, obs []strin
 			g.count("pre:delete-lowest")
 		}
 	}
+	if r.Chance(1, 3) {
+		// objects larger than the buffers and thresholds read paths use (io.Copy's 32 KiB, 64 KiB,
+		// 1 MiB): whatever fast path a reader takes for them must still not touch shared state
+		for k := 1; k > 0; k-- {
+			n := pick(r, []int{32769, 65537, 70000, 200 * 1024, 1 << 20, 1<<20 + 4097})
+			gid := pick(r, sortedGroups(groups))
+			ops = append(ops, &Op{Kind: "add", T: TOpt{Kind: "det"}, DI: DI{DT: 0x4007, Fail: -1, Data: DataSpec{Gen: true, Len: n, Seed: r.U64()}, Opts: []DIOpt{{Kind: "group", N: gid}}}})
+			g.count(fmt.Sprintf("large-object:%d", n))
+		}
+	}
 	var keys []int
 	for n := 1 + r.Intn(2); n > 0; n-- {
 		s := g.signKeys()
